@@ -20,7 +20,8 @@
    Mirrored as it is: where the code peeks and then consumes (PeekByte + GotoNextByte) or consumes at
    once (ReadByte in SkipValueImpl / ReadBinary), 1-byte GetValue through ReadByte and wider ones
    through ReadSolidBlock(sizeof T), ReadExtSize CONSUMING the length field (the string reader only
-   looks at it), SkipValueImpl seeking with SetPosition(GetPosition() + size) unless size == 0,
+   looks at it), SkipValueImpl moving over the payload with SkipBytes (a ReadByChunks loop, no seek;
+   since fix e491e27 — SetPosition(GetPosition() + size) before) unless size == 0,
    ReadExtFamilyType remembering GetPosition(), consuming the header up to and including the ext
    type byte and seeking back with SeekOrThrow(prevPos), ReadValue(CBinTimestamp) seeking over the
    header with SeekOrThrow, the reader's own SetPosition (since fix 24799d8 a refused seek at these
@@ -152,9 +153,24 @@ Fixpoint mps_skip_rep (step : prog (sr unit)) (g : nat) (cnt : N) : prog (sr uni
   | S g' => qbind step (fun _ => mps_skip_rep step g' (cnt - 1))
   end.
 
+(* SkipBytes(binaryStreamReader, size) (since fix e491e27): "while (size != 0) { chunk = ReadByChunks(size);
+   if (chunk.empty()) return false; size -= chunk.size(); } return true;" *)
+Fixpoint mps_skip_bytes (lf : nat) (size : N) : prog (sr bool) :=
+  if size =? 0 then Ret (QOk true) else
+  match lf with
+  | O => Ret QFuel
+  | S l =>
+    by_chunks size (fun chunk =>
+      match chunk with
+      | [] => Ret (QOk false)
+      | _ => mps_skip_bytes l (size - N.of_nat (length chunk))
+      end)
+  end.
+
 (* SkipValueImpl(binaryStreamReader).  As in MpModel.skip_impl the two SkipValueImpl calls per map
-   entry are 2 * extSize repetitions of one call. *)
-Fixpoint mps_skip_impl (fuel : nat) : prog (sr unit) :=
+   entry are 2 * extSize repetitions of one call.  [lf] is the fuel of the SkipBytes loops, [fuel] that of
+   the nesting. *)
+Fixpoint mps_skip_impl (lf : nat) (fuel : nat) : prog (sr unit) :=
   match fuel with
   | O => Ret QFuel
   | S f =>
@@ -173,15 +189,14 @@ Fixpoint mps_skip_impl (fuel : nat) : prog (sr unit) :=
              let children :=
                if ext =? 0 then Ret (QOk tt)
                else match m_ty m with
-                    | TMap => mps_skip_rep (mps_skip_impl f) f (2 * ext)
-                    | TArr => mps_skip_rep (mps_skip_impl f) f ext
+                    | TMap => mps_skip_rep (mps_skip_impl lf f) f (2 * ext)
+                    | TArr => mps_skip_rep (mps_skip_impl lf f) f ext
                     | _ => Ret (QOk tt)
                     end in
-             if size =? 0 then children
-             else get_position (fun p =>
-                    set_position (p + size) (fun ok =>
-                      if ok then children
-                      else Ret (QErr EParse))))                  (* "Unexpected end of input archive" *)
+             if size =? 0 then children                          (* "size == 0 || SkipBytes(reader, size)" *)
+             else qbind (mps_skip_bytes lf size) (fun ok =>
+                    if ok then children
+                    else Ret (QErr EParse)))                     (* "Unexpected end of input archive" *)
       end)
   end.
 
@@ -189,7 +204,7 @@ Fixpoint mps_skip_impl (fuel : nat) : prog (sr unit) :=
 Definition mps_handle_mismatch {A} (fuel : nat) (o : opts) (actual : vtype) : prog (sr A) :=
   if negb (vtype_eqb actual TNil) && (match o_mismatch o with PThrow => true | PSkip => false end)
   then Ret (QErr EMismatch)
-  else pbind (mps_skip_impl fuel)
+  else pbind (mps_skip_impl fuel fuel)
          (fun x => Ret match x with
                        | QOk _ => QNot
                        | QNot => QNot
@@ -408,7 +423,7 @@ Definition mps_read_ts (fuel : nat) (o : opts) : prog (sr (Z * Z)) :=
        end).
 
 (* SkipValue() *)
-Definition mps_skip_value (fuel : nat) : prog (sr unit) := mps_skip_impl fuel.
+Definition mps_skip_value (fuel : nat) : prog (sr unit) := mps_skip_impl fuel fuel.
 
 (* ================================================================== read sequences *)
 
